@@ -82,14 +82,39 @@ class Recorder:
             self.samples.append(obj)
 
     # ---- solver
-    def reachable(self, label, assumptions, timeout_ms=20000):
-        """Reachability twin: the obligation ``False`` must come back sat."""
-        r = satisfiable(assumptions, timeout_ms)
+    def reachable(self, label, assumptions, timeout_ms=20000, names=None, seed_from=None):
+        """Reachability twin: the obligation ``False`` must come back sat.
+
+        When the plain query is too hard (non-linear definitional side conditions), concrete values for
+        the inputs are taken from a model of the *input-level* constraints ``seed_from`` (preconditions
+        and path condition) and fixed, leaving only defined symbols (square roots ...) to the solver."""
+        r = satisfiable(assumptions, 2000 if names else timeout_ms)
+        if r == "unknown" and names:
+            block = []
+            for attempt in range(2):
+                s = z3.Solver()
+                s.set("timeout", 4000)
+                for a in (seed_from if seed_from is not None else assumptions):
+                    s.add(a)
+                for b in block:
+                    s.add(b)
+                # keep seeds well inside the domain
+                for v in names.values():
+                    s.add(v >= -6, v <= 6)
+                if str(s.check()) != "sat":
+                    break
+                m = s.model()
+                fix = [v == m.eval(v, model_completion=True) for v in names.values()]
+                r2 = satisfiable(list(assumptions) + fix, 8000)
+                if r2 == "sat":
+                    r = "sat"
+                    break
+                block.append(z3.Not(z3.And(*fix)))
         self.reach.append({"label": label, "verdict": r})
         return r
 
     def obligation(self, label, assumptions, negated_goal, key=None, replay=None, timeout_ms=None,
-                   describe=None, twin=False):
+                   describe=None, twin=False, syntactic=False):
         """Discharge one obligation: assumptions /\\ negated_goal must be unsat.
 
         ``replay``: callable model -> JSON-able payload for the concrete replay.
@@ -101,6 +126,8 @@ class Recorder:
         want_smt = len(self.samples) < 2
         v = refute(label, assumptions, negated_goal, timeout_ms=timeout_ms, want_smt=want_smt)
         rec = {"label": label, "verdict": v.status, "time_s": round(v.dt, 4)}
+        if syntactic:
+            rec["syntactic"] = True  # normal form of code - ref is the zero polynomial: independent of the assumptions
         if want_smt and v.smt and v.status == "unsat":
             self.samples.append({"obligation": label, "verdict": v.status, "smtlib": v.smt})
         if twin:
